@@ -281,6 +281,11 @@ def match_finding(prop, formula, scenario, extra=""):
 
 
 def write_evidence(prop, tier, level, coverage, wall, violations, assumptions):
+    # evidence/ describes /repo itself; a run against another tree (VERIF_REPO: a seeded or
+    # mutated scratch worktree) or a partial run (VERIF_ONLY) writes under .work instead
+    global EVIDENCE
+    if os.path.realpath(REPO) != "/repo" or os.environ.get("VERIF_ONLY"):
+        EVIDENCE = os.path.join(WORK, "evidence-other")
     os.makedirs(EVIDENCE, exist_ok=True)
     ev = {"property_id": prop, "tier": tier, "seed": seed(), "level": level, "coverage": coverage,
           "assumptions": assumptions, "wall_s": round(wall, 2), "violations": violations}
